@@ -423,8 +423,15 @@ def c11_scenario(rep, binary, workdir, rng, frame_maker, attempt=0):
     dfs = [0, 4, 5, 11, 16, 17, 18, 20, 21]
     frames = []
     for df in dfs:
-        for _ in range(6):
+        for k in range(6):
             h, addr, decoys = frame_maker(rng, df)
+            if k == 5:
+                # one frame per format carries an edge of the address space (000000, 000001, ffffff, ...)
+                try:
+                    h, addr, decoys = frame_maker(rng, df, rng.choice([0, 0, 1, 0xFFFFFF, 0x800000]))
+                    rep.cls("system:edge-address-sent")
+                except TypeError:
+                    pass
             frames.append((df, bytes.fromhex(h), addr, decoys))
     # keep the frames the decoder accepts (asked through the driver of the same binary: random TC31 / Comm-B bits may be refused)
     from common import drive
